@@ -14,6 +14,8 @@ package main
 // model computes from the inputs' control skeletons.
 
 import (
+	"bytes"
+	"context"
 	"fmt"
 	"os"
 	"path/filepath"
@@ -25,6 +27,7 @@ import (
 	"fortio.org/log"
 	"grol.io/grol/extensions"
 	"grol.io/grol/object"
+	"grol.io/grol/repl"
 	"verifharness/common"
 	. "verifharness/common"
 )
@@ -558,6 +561,48 @@ func checkHistory(c *Ctx, noReg bool, h []input, baseObs []SessObs, withModel bo
 	c.NonTrivial(encodeHist(noReg, h))
 }
 
+// splitWriterCases (round 12): an embedder's session, where the session writer (State.Out: what println writes to) is NOT the
+// per-input writer handed to repl.EvalOne (which receives the echo of the result). A failing input of every kind - also one
+// that panics while a function call has redirected State.Out - must leave State.Out on the session writer: the output of the
+// following inputs goes where it went before, and nothing of it lands in a per-input buffer.
+func splitWriterCases(c *Ctx) {
+	bads := []string{`vpanic()`, `func pf(){vpanic()}; pf()`, `func pg(n){println("in", n); vpanic()}; pg(1)`, `[1, vpanic()]`, `println("x", vpanic())`,
+		`func rr(n){rr(n+1)}; rr(0)`, `func ra(n){[ra(n+1)]}; ra(0)`, `1/0`, `undefined_name_zz`, `for i = 3 {vpanic()}`, `catch(vpanic())`, `(`}
+	for _, noReg := range []bool{false, true} {
+		for _, bad := range bads {
+			for reps := 1; reps <= 2; reps++ {
+				x := NewSess(noReg, maxDepthC10)
+				x.S.NoLog = true
+				step := func(in string) (sess, res string, panicked bool) {
+					x.Buf.Reset()
+					var rb bytes.Buffer
+					_, p, _, _ := repl.EvalOne(context.Background(), x.S, in, &rb, x.Opts)
+					c.Eval()
+					return x.Buf.String(), rb.String(), p
+				}
+				cs := fmt.Sprintf("SPLIT %s %d %s", b01(noReg), reps, Hx([]byte(bad)))
+				if so, _, _ := step(`println("a")`); so != "a\n" {
+					c.Fail("split-writer:println-not-on-session-writer", cs, fmt.Sprintf("before any failure println(\"a\") wrote %q to the session writer", so))
+					continue
+				}
+				pk := false
+				for i := 0; i < reps; i++ {
+					_, _, p := step(bad)
+					pk = pk || p
+				}
+				so, ro, _ := step(`println("hello")`)
+				if so != "hello\n" || strings.Contains(ro, "hello") || !x.S.VerifOutIs(x.Buf) {
+					c.Fail("split-writer:session-writer-replaced-after-failed-input", cs, fmt.Sprintf("after %d x %q (panicked=%v) println(\"hello\") wrote %q to the session writer and %q to the per-input writer; State.Out is the session writer: %v", reps, bad, pk, so, ro, x.S.VerifOutIs(x.Buf)))
+				}
+				c.Count("split-writer-history")
+				if pk {
+					c.Count("split-writer-history-with-recovered-panic")
+				}
+			}
+		}
+	}
+}
+
 func runC10(c *Ctx) {
 	// library functions written in grol (keys, abs, str, printf, log2), eval, unjson, and load/save
 	_ = extensions.Init(&extensions.Config{HasLoad: true, HasSave: true})
@@ -575,6 +620,10 @@ func runC10(c *Ctx) {
 		}
 	}
 	c.Rule = "a history is non-trivial when at least one failing input is followed by a succeeding input whose output depends on the session (every generated history is: the base always ends with state-dependent inputs)"
+	if strings.HasPrefix(c.ReplayCase, "SPLIT ") {
+		splitWriterCases(c)
+		return
+	}
 	if c.ReplayCase != "" {
 		noReg, h := decodeHist(c.ReplayCase)
 		var base []input
@@ -592,6 +641,7 @@ func runC10(c *Ctx) {
 		}
 		return
 	}
+	splitWriterCases(c)
 	nBases, nRandom := 8, 600
 	if c.Thorough() {
 		nBases, nRandom = 160, 20000
